@@ -356,6 +356,13 @@ def jobs(tier):
             if {a, b} == {'arr', 'lit'} and False:
                 continue
             out.append({'tag': t, 'attrs': [a, b], 'opts': ({} if tier == 'quick' else {'optimize': 'sym'})})
+    if tier == 'quick':
+        # spread x on-object x mergeable name: the triples in which transformOn and mergeProps interact (thorough: all triples)
+        for t in ['div', 'Foo']:
+            for sp in ('spI', 'spO'):
+                for mname in ('cls', 'clk', 'clsE', 'S:2'):
+                    for tr in itertools.permutations([sp, 'on', mname]):
+                        out.append({'tag': t, 'attrs': list(tr)})
     if tier != 'quick':
         core = ['S:2', 'clsE', 'cls', 'clk', 'spI', 'spO', 'on', 'key', 'obj']
         for t in ['div', 'Foo']:
